@@ -14,6 +14,23 @@ import (
 // every string; two-path calls on pairs of a fixed core; a few Glob patterns;
 // Getwd.
 //
+// One input per shortcut visible in the code. BasePathFS decides "is this path
+// below B" on strings (curDir, FromBasePath, ToBasePath): a test written as
+// HasPrefix(p, B) instead of p == B || HasPrefix(p, B+"/") is wrong exactly
+// for names of which B's name is a strict string prefix. The base therefore
+// holds the sibling /top/bb (dir k, file f) of B=/top/b, and the alphabet has
+//   - siblingStrings: strings naming "bb" from the virtual namespace (also
+//     B's own absolute base path with the sibling's name, "/top/bb/f");
+//   - BaseChdir(d): a call made on the BASE file system, not through the
+//     wrapper - base.Chdir(d) for d in baseChdirTargets (inside B, B, the
+//     prefix sibling and its subdirectory, B's ancestors, an unrelated
+//     directory) - followed by the cwd-dependent wrapper calls Getwd,
+//     Abs("f"), Stat("f"). The reference follows with its cwd set to the
+//     virtual counterpart of d: d minus B if d is in B, else "/" (curDir's
+//     documented answer for a base cwd outside B). The states reached (base
+//     cwd outside B) are expanded with the whole level >= 2 alphabet like any
+//     other.
+//
 // Levels. The operation list is static and sorted by decreasing MaxLevel, the
 // deepest level at which an operation is applied; NumOps of the system (which
 // bfs asks after replaying a history) is the length of the prefix that applies
@@ -22,7 +39,8 @@ import (
 //	level 1 (first call of a history): every operation;
 //	level 2: operations all of whose path operands are "reduced" strings -
 //	         relative strings (incl. "") and absolute strings with a ".."
-//	         element - of <= 2 segments, plus Getwd and the fixed Glob patterns;
+//	         element - of <= 2 segments, plus Getwd, BaseChdir and the fixed
+//	         Glob patterns;
 //	level 3 (thorough): as level 2 but only strings of <= 1 segment.
 
 var segAlphabet = []string{"a", "f", "secret", "top", "b", ".", ".."}
@@ -41,6 +59,10 @@ type opT struct {
 func (o opT) String() string {
 	if o.Call == "Getwd" {
 		return "Getwd()"
+	}
+
+	if o.Call == "BaseChdir" {
+		return fmt.Sprintf("base.Chdir(%q)+Getwd+Abs+Stat", o.A)
 	}
 
 	if o.Two {
@@ -74,7 +96,41 @@ var pairCore = []string{
 	"", ".", "..", "a", "f", "a/f", "b", "a/b", "../b", "../secret", "../../secret", "../b/f", "a/../f", "./f",
 }
 
-var siblingStrings = []string{"bb", "/bb", "../bb", "/../bb", "bb/f", "/bb/f", "../bb/f", "/../bb/f", "a/../../bb", "/../bb/.."}
+// siblingName: a directory next to B in the base whose name has B's name as a
+// strict string prefix.
+const (
+	siblingName = "bb"
+	siblingPath = "/top/" + siblingName
+	siblingSub  = siblingPath + "/k"
+	unrelated   = "/out"
+)
+
+// siblingStrings name the sibling as seen from the virtual namespace, and spell
+// B's absolute base path followed by the rest of the sibling's name.
+var siblingStrings = []string{
+	"bb", "/bb", "../bb", "/../bb", "bb/f", "/bb/f", "../bb/f", "/../bb/f", "a/../../bb", "/../bb/..",
+	"bb/k", "../bb/k", "b/../bb", siblingPath, siblingPath + "/f", siblingSub, "top/bb", "/../top/bb/f", "../top/bb",
+}
+
+// baseChdirTargets are the directories the BASE file system is sent to by
+// BaseChdir, one per class of baseCwdClass (and B's two ancestors).
+var baseChdirTargets = []string{basePath + "/a", basePath, siblingPath, siblingSub, "/top", "/", unrelated}
+
+// baseCwdClass: where a cleaned directory of the base lies with respect to B.
+func baseCwdClass(d string) string {
+	switch {
+	case d == basePath:
+		return "B"
+	case strings.HasPrefix(d, basePath+"/"):
+		return "in-B"
+	case strings.HasPrefix(d, basePath):
+		return "prefix-sibling"
+	case d == "/" || strings.HasPrefix(basePath, d+"/"):
+		return "ancestor"
+	}
+
+	return "unrelated"
+}
 
 type pathStr struct {
 	S    string
@@ -198,6 +254,12 @@ func buildOps(tier string) []opT {
 
 	ops = append(ops, opT{Call: "Getwd", MaxLevel: maxLevels})
 
+	// calls on the base itself, first in the list: the states they reach open
+	// the next level
+	for _, d := range baseChdirTargets {
+		ops = append(ops, opT{Call: "BaseChdir", A: d, MaxLevel: maxLevels})
+	}
+
 	for _, g := range fixedGlobs {
 		ops = append(ops, opT{Call: "Glob", A: g, MaxLevel: maxLevels})
 	}
@@ -214,13 +276,13 @@ func buildOps(tier string) []opT {
 		}
 	}
 
-	// thorough only, level 1 only: strings naming "bb", the sibling /top/bb of
-	// B=/top/b in the base (a prefix test on strings confuses the two)
-	if tier == "thorough" {
-		for _, p := range siblingStrings {
-			for _, c := range singleCalls {
-				ops = append(ops, opT{Call: c, A: p, MaxLevel: 1})
-			}
+	// strings naming "bb", the sibling /top/bb of B=/top/b in the base (a prefix
+	// test on strings confuses the two); levels as for the other strings
+	for _, p := range siblingStrings {
+		lvl := levelOf(segs, pathStr{p, segCount(p)})
+
+		for _, c := range singleCalls {
+			ops = append(ops, opT{Call: c, A: p, MaxLevel: lvl})
 		}
 	}
 
